@@ -157,6 +157,10 @@ def run_graph(case, until=0):
             outcome, msg = "rejected", str(e)
         except BaseException as e:  # noqa
             outcome, msg = "error", f"{type(e).__name__}: {e}"
+            import traceback
+            from mvf.schedprops import raised_in_delay_comparison
+            if "incomparable" not in msg and raised_in_delay_comparison("".join(traceback.format_exception(e))):
+                msg += " [the comparison of two delays failed: incomparable]"
         stepped = any(x[1] == "step" for x in simple_sim.LOG)
         return outcome, msg, stepped
     finally:
